@@ -70,6 +70,7 @@ func unsup(format string, a ...any) { panic(unsupported{fmt.Sprintf(format, a...
 
 // VC accumulates the verification condition of one function under proof.
 type VC struct {
+	nonNil map[string]bool // terms that are results of checked address computations
 	epochEq map[int][]string // epoch -> Boolean constants under which every heap of the epoch equals the entry heap
 	L         *Loaded
 	S         *Sorts
